@@ -1,7 +1,19 @@
 // replay of kernel-unit witnesses against the real amgcl templates
 #include "witness.hpp"
 #include <amgcl/detail/sort_row.hpp>
+#include <amgcl/detail/spgemm.hpp>
+#include <csignal>
+#include <unistd.h>
 using namespace amgcl;
+
+// a crash of the real code on a witness input (heap corruption detected by glibc, segfault) is a
+// reproduction: report it as such instead of dying with a signal
+static void on_crash(int sig) {
+    const char msg[] = "\nREPRODUCED on the real code: the call crashed (SIGSEGV/SIGABRT: memory corruption)\n";
+    if (write(1, msg, sizeof(msg) - 1)) {}
+    (void)sig;
+    _exit(1);
+}
 
 static int r_transpose(const Witness &w) {
     auto A = crs_from(w, "A");
@@ -19,12 +31,164 @@ static int r_transpose(const Witness &w) {
     return 0;
 }
 
+static int r_sort_row(const Witness &w) {
+    if (!w.has("w_n")) { std::cout << "no witness input (inductive unit: no concrete trace)" << std::endl; return 3; }
+    int n = (int)w.num("w_n");
+    std::vector<double> c = w.arr("w_col"), v = w.arr("w_val");
+    size_t len = n > 0 ? (size_t)n : 0;
+    if (c.size() < len || v.size() < len) { std::cout << "witness too short" << std::endl; return 3; }
+    std::vector<ptrdiff_t> col(len + 1, 0), col0; std::vector<double> val(len + 1, 0.0), val0;
+    for (size_t k = 0; k < len; ++k) { col[k] = (ptrdiff_t)c[k]; val[k] = v[k]; }
+    col[len] = 424242; val[len] = 424242.0;   // guard cell after the row
+    col0 = col; val0 = val;
+    std::cout << "sort_row input n=" << n << ":"; for (size_t k = 0; k < len; ++k) std::cout << " " << col[k] << ":" << val[k]; std::cout << std::endl;
+    amgcl::detail::sort_row(col.data(), val.data(), n);
+    std::cout << "sort_row output:"; for (size_t k = 0; k < len; ++k) std::cout << " " << col[k] << ":" << val[k]; std::cout << std::endl;
+    for (size_t k = 0; k + 1 < len; ++k) if (!(col[k] <= col[k + 1])) FAIL("sort_row: columns not ascending at position " << k);
+    for (size_t k = 0; k < len; ++k) {
+        int a = 0, b = 0;
+        for (size_t l = 0; l < len; ++l) { if (col0[l] == col0[k] && val0[l] == val0[k]) ++a; if (col[l] == col0[k] && val[l] == val0[k]) ++b; }
+        if (a != b) FAIL("sort_row: pair (" << col0[k] << "," << val0[k] << ") occurs " << a << " times in the input, " << b << " times in the output");
+    }
+    if (col[len] != 424242 || val[len] != 424242.0) FAIL("sort_row: cell after the row modified");
+    return 0;
+}
+
+static int r_pointwise(const Witness &w) {
+    auto A = crs_from(w, "A");
+    unsigned bs = (unsigned)w.num("w_bs", 0);
+    if (bs == 0) { std::cout << "no block size in witness" << std::endl; return 3; }
+    print_crs("A", *A);
+    std::cout << "block_size = " << bs << std::endl;
+    std::shared_ptr<Crs> P;
+    try { P = backend::pointwise_matrix(*A, bs); } catch (const std::exception &e) { FAIL("pointwise_matrix threw: " << e.what()); }
+    print_crs("pointwise_matrix(A)", *P);
+    std::string why;
+    size_t np = A->nrows / bs, mp = A->ncols / bs;
+    if (P->nrows != np || P->ncols != mp) FAIL("pointwise_matrix: wrong dimensions");
+    if (!wf(*P, why)) FAIL("pointwise_matrix: result not well-formed: " << why);
+    if (P->nrows && P->nnz != (size_t)P->ptr[P->nrows]) FAIL("pointwise_matrix: nnz != ptr[n]");
+    if (!rows_sorted(*P, true)) FAIL("pointwise_matrix: rows not strictly ascending");
+    // independent oracle: dense presence / max-norm per block
+    std::vector<int> cnt(np * mp, 0); std::vector<double> mx(np * mp, 0.0);
+    for (size_t i = 0; i < A->nrows; ++i) for (ptrdiff_t j = A->ptr[i]; j < A->ptr[i + 1]; ++j) {
+        size_t b = (i / bs) * mp + (size_t)A->col[j] / bs;
+        cnt[b]++; mx[b] = std::max(mx[b], std::fabs(A->val[j]));
+    }
+    std::vector<int> st(np * mp, 0); std::vector<double> pv(np * mp, 0.0);
+    for (size_t i = 0; i < np; ++i) for (ptrdiff_t j = P->ptr[i]; j < P->ptr[i + 1]; ++j) { st[i * mp + P->col[j]]++; pv[i * mp + P->col[j]] = P->val[j]; }
+    for (size_t i = 0; i < np; ++i) for (size_t j = 0; j < mp; ++j) {
+        if ((cnt[i * mp + j] > 0) != (st[i * mp + j] > 0)) FAIL("pointwise_matrix: block (" << i << "," << j << ") has " << cnt[i * mp + j] << " entries in A but is " << (st[i * mp + j] ? "stored" : "missing") << " in the result");
+        if (st[i * mp + j] && pv[i * mp + j] != mx[i * mp + j]) FAIL("pointwise_matrix: block (" << i << "," << j << ") = " << pv[i * mp + j] << " expected largest norm " << mx[i * mp + j]);
+    }
+    return 0;
+}
+
+static bool nodup(const Crs &A) {
+    for (size_t i = 0; i < A.nrows; ++i) for (ptrdiff_t j = A.ptr[i]; j < A.ptr[i + 1]; ++j)
+        for (ptrdiff_t k = j + 1; k < A.ptr[i + 1]; ++k) if (A.col[j] == A.col[k]) return false;
+    return true;
+}
+static std::vector<int> pattern(const Crs &A) {
+    std::vector<int> d(A.nrows * A.ncols, 0);
+    for (size_t i = 0; i < A.nrows; ++i) for (ptrdiff_t j = A.ptr[i]; j < A.ptr[i + 1]; ++j) d[i * A.ncols + A.col[j]]++;
+    return d;
+}
+static int r_sum(const Witness &w) {
+    auto A = crs_from(w, "A"), B = crs_from(w, "B");
+    double alpha = w.num("w_alpha"), beta = w.num("w_beta"); bool sort = w.num("w_sort") != 0;
+    print_crs("A", *A); print_crs("B", *B);
+    std::cout << "alpha=" << alpha << " beta=" << beta << " sort=" << sort << std::endl;
+    std::shared_ptr<Crs> C;
+    try { C = backend::sum(alpha, *A, beta, *B, sort); } catch (const std::exception &e) { FAIL("sum threw: " << e.what()); }
+    print_crs("sum", *C);
+    std::string why;
+    if (C->nrows != A->nrows || C->ncols != A->ncols) FAIL("sum: wrong shape");
+    if (!wf(*C, why)) FAIL("sum: result not well-formed: " << why);
+    if (C->nrows && C->nnz != (size_t)C->ptr[C->nrows]) FAIL("sum: nnz != ptr[n]");
+    std::vector<double> dA = dense(*A), dB = dense(*B), dC = dense(*C);
+    std::vector<int> pA = pattern(*A), pB = pattern(*B), pC = pattern(*C);
+    for (size_t k = 0; k < dC.size(); ++k) {
+        if (dC[k] != alpha * dA[k] + beta * dB[k]) FAIL("sum: entry (" << k / C->ncols << "," << k % C->ncols << ") = " << dC[k] << " expected " << alpha * dA[k] + beta * dB[k]);
+        if ((pC[k] > 0) != (pA[k] > 0 || pB[k] > 0)) FAIL("sum: pattern differs from the union at (" << k / C->ncols << "," << k % C->ncols << ")");
+    }
+    if (((nodup(*A) && nodup(*B)) || (rows_sorted(*A, false) && rows_sorted(*B, false))) && !nodup(*C)) FAIL("sum: duplicate column in a row of the result");
+    if (sort && !rows_sorted(*C, false)) FAIL("sum: rows not ascending although sort=true");
+    return 0;
+}
+
+static int r_spgemm_saad(const Witness &w) {
+    auto A = crs_from(w, "A"), B = crs_from(w, "B");
+    bool sort = w.num("w_sort") != 0;
+    print_crs("A", *A); print_crs("B", *B); std::cout << "sort=" << sort << std::endl;
+    if (A->ncols != B->nrows) { std::cout << "incompatible witness" << std::endl; return 3; }
+    Crs C;
+    try { backend::spgemm_saad(*A, *B, C, sort); } catch (const std::exception &e) { FAIL("spgemm_saad threw: " << e.what()); }
+    print_crs("A*B", C);
+    std::string why;
+    if (C.nrows != A->nrows || C.ncols != B->ncols) FAIL("spgemm_saad: wrong shape");
+    if (!wf(C, why)) FAIL("spgemm_saad: result not well-formed: " << why);
+    if (C.nrows && C.nnz != (size_t)C.ptr[C.nrows]) FAIL("spgemm_saad: nnz != ptr[n]");
+    std::vector<double> dA = dense(*A), dB = dense(*B), dC = dense(C);
+    std::vector<int> pA = pattern(*A), pB = pattern(*B), pC = pattern(C);
+    size_t n = A->nrows, m = A->ncols, k = B->ncols;
+    for (size_t i = 0; i < n; ++i) for (size_t j = 0; j < k; ++j) {
+        double e = 0; int cnt = 0;
+        for (size_t l = 0; l < m; ++l) { e += dA[i * m + l] * dB[l * k + j]; cnt += pA[i * m + l] * pB[l * k + j]; }
+        if (dC[i * k + j] != e) FAIL("spgemm_saad: entry (" << i << "," << j << ") = " << dC[i * k + j] << " expected " << e);
+        if ((pC[i * k + j] > 0) != (cnt > 0)) FAIL("spgemm_saad: pattern differs from the structural product at (" << i << "," << j << ")");
+    }
+    if (((nodup(*A) && nodup(*B)) || (rows_sorted(*A, false) && rows_sorted(*B, false))) && !nodup(C)) FAIL("spgemm_saad: duplicate column in a row of the result");
+    if (sort && !rows_sorted(C, false)) FAIL("spgemm_saad: rows not ascending although sort=true");
+    return 0;
+}
+
+static int r_scale(const Witness &w) {
+    auto A = crs_from(w, "A");
+    double sc = w.num("w_s");
+    print_crs("A", *A); std::cout << "s=" << sc << std::endl;
+    Crs A0(*A);
+    backend::scale(*A, sc);
+    print_crs("scale(A,s)", *A);
+    if (A->nrows != A0.nrows || A->ncols != A0.ncols || A->nnz != A0.nnz) FAIL("scale: sizes changed");
+    for (size_t i = 0; i <= A0.nrows; ++i) if (A->ptr[i] != A0.ptr[i]) FAIL("scale: ptr changed");
+    for (ptrdiff_t j = 0; j < A0.ptr[A0.nrows]; ++j) {
+        if (A->col[j] != A0.col[j]) FAIL("scale: col changed");
+        if (A->val[j] != A0.val[j] * sc) FAIL("scale: val[" << j << "] = " << A->val[j] << " expected " << A0.val[j] * sc);
+    }
+    return 0;
+}
+
+static int r_sort_rows(const Witness &w) {
+    auto A = crs_from(w, "A");
+    print_crs("A", *A);
+    Crs A0(*A);
+    backend::sort_rows(*A);
+    print_crs("sort_rows(A)", *A);
+    if (A->nrows != A0.nrows || A->ncols != A0.ncols || A->nnz != A0.nnz) FAIL("sort_rows: sizes changed");
+    for (size_t i = 0; i <= A0.nrows; ++i) if (A->ptr[i] != A0.ptr[i]) FAIL("sort_rows: ptr changed");
+    if (!rows_sorted(*A, false)) FAIL("sort_rows: a row is not ascending");
+    for (size_t i = 0; i < A0.nrows; ++i) for (ptrdiff_t k = A0.ptr[i]; k < A0.ptr[i + 1]; ++k) {
+        int a = 0, b = 0;
+        for (ptrdiff_t l = A0.ptr[i]; l < A0.ptr[i + 1]; ++l) { if (A0.col[l] == A0.col[k] && A0.val[l] == A0.val[k]) ++a; if (A->col[l] == A0.col[k] && A->val[l] == A0.val[k]) ++b; }
+        if (a != b) FAIL("sort_rows: row " << i << " pair (" << A0.col[k] << "," << A0.val[k] << ") occurs " << a << " times before, " << b << " times after");
+    }
+    return 0;
+}
+
 int main(int argc, char **argv) {
     if (argc < 3) return 2;
+    std::signal(SIGSEGV, on_crash); std::signal(SIGABRT, on_crash);
     std::string unit = argv[1];
     Witness w;
     if (!w.load(std::string(argv[2]) + ".in")) { std::cout << "no witness input" << std::endl; return 3; }
     if (unit == "builtin_transpose") return r_transpose(w);
+    if (unit == "sort_row" || unit == "sort_row_safety") return r_sort_row(w);
+    if (unit == "builtin_pointwise_matrix") return r_pointwise(w);
+    if (unit == "builtin_sum") return r_sum(w);
+    if (unit == "spgemm_saad") return r_spgemm_saad(w);
+    if (unit == "builtin_scale") return r_scale(w);
+    if (unit == "builtin_sort_rows") return r_sort_rows(w);
     std::cout << "no replay for unit " << unit << std::endl;
     return 3;
 }
